@@ -152,16 +152,7 @@ def load(val, import_custom_exceptions, instantiate_custom_exceptions, instantia
         cls = None
 
     if cls is None:
-        fullname = "%s.%s" % (modname, clsname)
-        # py2: `type()` expects `str` not `unicode`!
-        fullname = str(fullname)
-        if fullname not in _generic_exceptions_cache:
-            fakemodule = {"__module__": "%s/%s" % (__name__, modname)}
-            if isinstance(GenericException, ClassType):
-                _generic_exceptions_cache[fullname] = ClassType(fullname, (GenericException,), fakemodule)
-            else:
-                _generic_exceptions_cache[fullname] = type(fullname, (GenericException,), fakemodule)
-        cls = _generic_exceptions_cache[fullname]
+        cls = _get_generic_exception_class(modname, clsname)
 
     cls = _get_exception_class(cls)
 
@@ -169,7 +160,13 @@ def load(val, import_custom_exceptions, instantiate_custom_exceptions, instantia
     if ClassType is not type and isinstance(cls, ClassType):
         exc = InstanceType(cls)
     else:
-        exc = cls.__new__(cls)
+        try:
+            exc = cls.__new__(cls)
+        except TypeError:
+            # some classes cannot be created without arguments (e.g. exception groups): fall back to
+            # the generic stand-in instead of letting the error escape from the serving loop
+            cls = _get_exception_class(_get_generic_exception_class(modname, clsname))
+            exc = cls.__new__(cls)
 
     exc.args = args
     for name, attrval in attrs:
@@ -196,6 +193,19 @@ class GenericException(Exception):
 
 _generic_exceptions_cache = {}
 _exception_classes_cache = {}
+
+
+def _get_generic_exception_class(modname, clsname):
+    fullname = "%s.%s" % (modname, clsname)
+    # py2: `type()` expects `str` not `unicode`!
+    fullname = str(fullname)
+    if fullname not in _generic_exceptions_cache:
+        fakemodule = {"__module__": "%s/%s" % (__name__, modname)}
+        if isinstance(GenericException, ClassType):
+            _generic_exceptions_cache[fullname] = ClassType(fullname, (GenericException,), fakemodule)
+        else:
+            _generic_exceptions_cache[fullname] = type(fullname, (GenericException,), fakemodule)
+    return _generic_exceptions_cache[fullname]
 
 
 def _get_exception_class(cls):
